@@ -13,7 +13,7 @@ use crate::oracle::*;
 pub const META: PropMeta = PropMeta {
     id: "C38",
     quick_runs: 24_000,
-    thorough_runs: 3_000_000,
+    thorough_runs: 5_000_000,
     rule: "each run picks a corpus simulation program, a seeded workload and 4096 decision bytes, executes the instance three times in this process through CompiledSim::fuzz_repro and (for a seeded 1/16 of the runs, in batches) once more in a fresh child process — under an LD_PRELOADed getrandom shim with a different hash seed when /verif/e7_seedsim/shim.so exists — and compares decision log, outputs and verdict byte for byte. Distinct = distinct hash of (program, decision log); non-trivial = at least one item flowed AND the schedule has more than one tick/observation or served an await mid-workload.",
     time_unit: "scheduled ticks + observations (first execution)",
     real: &[
